@@ -22,6 +22,35 @@ func (fr *Frame) nativeModel(instr ssa.Instruction, full string, callee *ssa.Fun
 		calls := c.get(st, "G:$nowcalls", SInt)
 		c.set(st, "G:$nowcalls", mk(SInt, "(+ %s 1)", calls.S))
 		return scalar(n, rt), true
+	case "errors.As", "github.com/pkg/errors.As":
+		// errors.As(err, &target): on success the target cell holds a non-nil value of the target's type found in
+		// err's chain (for *fosite.RFC6749Error: ehead(err)); on failure the cell is unchanged.
+		a := args[1]
+		if a.Boxed == nil {
+			return nil, false
+		}
+		pt, ok := a.Boxed.Underlying().(*types.Pointer)
+		if !ok {
+			return nil, false
+		}
+		elem := pt.Elem()
+		es, ok := sortOf(elem)
+		if !ok || es != SV {
+			return nil, false
+		}
+		key := "P:" + typeKey(elem)
+		cur := c.get(st, key, ArrSort(SV, SV))
+		found := c.sc.freshConst("as_found", SV)
+		r := c.sc.freshConst("as_ok", SBool)
+		facts := []*Term{tImp(r, tAnd(tNot(tEq(found, tNull)), tEq(tApp(SInt, "dyntype", found), c.typeID(elem)), mk(SBool, "(< (birth %s) %s)", found.S, c.clk(st).S))),
+			tImp(tEq(args[0].T, tNull), tNot(r))}
+		if strings.HasSuffix(typeKey(elem), "fosite.RFC6749Error") {
+			c.sc.declareFun("ehead", []Sort{SV}, SV)
+			facts = append(facts, tEq(r, tNot(tEq(tApp(SV, "ehead", args[0].T), tNull))), tImp(r, tEq(found, tApp(SV, "ehead", args[0].T))))
+		}
+		c.sc.assert(tImp(reach, tAnd(facts...)))
+		c.set(st, key, tStore(cur, a.T, tIte(r, found, tSelect(cur, a.T))))
+		return scalar(r, rt), true
 	case "(time.Time).UTC", "(time.Time).Local":
 		return &Val{T: args[0].T, Typ: rt}, true
 	case "encoding/json.Marshal":
